@@ -330,6 +330,10 @@ func (sc *specCtx) binary(e *CBin) Val {
 				eq = "(= (s-ref " + x.S + ") nil)"
 			case y.Sort == SSlice && x.S == "nil":
 				eq = "(= (s-ref " + y.S + ") nil)"
+			case x.Sort == SIface && y.S == "nil":
+				eq = "(= (i-tag " + x.S + ") 0)"
+			case y.Sort == SIface && x.S == "nil":
+				eq = "(= (i-tag " + y.S + ") 0)"
 			case x.Sort != y.Sort:
 				unsup("spec: comparing different sorts %s and %s in %s", x.Sort, y.Sort, e)
 			default:
